@@ -17,7 +17,13 @@ integer numerator over the denominator `den`. Lanes are separated by `;`, rows b
   C06 evaluated on these tables: `disj=<regionsDisjointB> rows=<stateRowsCapturedB> caps=<capsPositiveB> flags=<flagsOKB> transfer=<transferRowsB>`.
 * `wio-ctos <cpu|gpu> <time> <sims> <bx> <by> <sLen> <nIo> <ppoLocs> <ppoCaps> <C>` — `c_to_s(time, sd=0)` on the raw cells `C` of every
   lane: per lane (`;`) per row (`/`) the capture record `init eat lst final val ovl` (fields joined by `,`), `-` for a row that is
-  not captured (keeps its old record). -/
+  not captured (keeps its old record).
+* `wio-cprop <cpu|gpu> <sims> <bx> <by> <nAcc> <nsets> <seed> <modes csv> <simctl0 csv> <ops> <levels> <c_locs> <c_caps> <delays> <C>` — a whole
+  `c_prop`: `ops` rows `lut,out,a,b,c,d,a_loc,a_wr,a_wf` (`/`), `levels` rows `start,stop`, `delays` = data sets (`;`) of rows
+  `d00,d01,d10,d11` per index (`/`), `C` = raw cells of every lane before the call. Runs `cpuCProp` / `gpuCProp (evWave cfgSel loc)` — the
+  functions of the theorems C03 `cprop_*`, C06 `c_prop_paths_agree`, `dataset_lane*`, C13 `activity_*`. Answer per lane (`;`): for every index
+  with memory `i=ents:term` (`/`-separated; the waveform its region READS AS — cells behind the terminator are not compared: the real
+  evaluator leaves popped entries there), `#`, the `nAcc` accumulators. -/
 namespace KV.Drv.WaveIO
 open KV.Wave KV.WaveIO
 
@@ -113,6 +119,41 @@ def handle (cmd : String) (args : List String) : Option String :=
       match r x y with
       | some cp => (showCap cp).replace " " ","
       | none => "-")))
+  | "wio-cprop", [path, sims, bx, by_, nAcc, nsets, seed, modesS, ctl0S, opsS, levelsS, locsS, capsS, delaysS, cS] =>
+    -- `WaveSim.c_prop` / `WaveSimCuda.c_prop` on the raw memory of a real object: `cpuCProp` / `gpuCProp` with the waveform
+    -- evaluator `evWave`, per-lane data set `selectDataset` (= `C06.cfgSel`), accumulation `accAdd` from the zero accumulators
+    let sims := sims.toNat!; let nAcc := nAcc.toNat!; let nsets := nsets.toNat!; let seed := seed.toNat!
+    let opsL : List AOp := (fields "/" opsS).map fun r =>
+      match parseInts r with
+      | [lut, out, a, b, c, d, al, wr, wf] => ⟨⟨lut.toNat, out.toNat, a.toNat, b.toNat, c.toNat, d.toNat⟩, al, wr, wf⟩
+      | _ => default
+    let levels : List (Nat × Nat) := (fields "/" levelsS).map fun r =>
+      match parseInts r with
+      | [a, b] => (a.toNat, b.toNat)
+      | _ => (0, 0)
+    let locA := (parseInts locsS).toArray; let capA := (parseInts capsS).toArray
+    let modeA := (parseInts modesS).toArray; let ctlA := (parseInts ctl0S).toArray
+    let sets : Array (Array (List Int)) := ((delaysS.splitOn ";").map fun ds => ((fields "/" ds).map parseInts).toArray).toArray
+    let delayOf : Nat → Nat → Bool → Bool → Int := fun d l p q =>
+      ((sets.getD d #[]).getD l []).getD ((if p then 2 else 0) + (if q then 1 else 0)) 0
+    let cfg : Nat → WCfg := fun sim =>
+      ⟨delayOf ((selectDataset nsets (modeA.getD sim 0).toNat seed (ctlA.getD sim 0).toNat).getD 0), fun i => (capA.getD i 0).toNat⟩
+    let loc : Nat → Int := fun i => locA.getD i (-1)
+    let cA := parseC cS
+    let S0 : Nat → LaneSt := fun x => ⟨colOf (cA.getD x #[]), fun _ => 0⟩
+    if bx.toNat! == 0 || by_.toNat! == 0 then some "bad-args" else
+    let R := if path == "cpu" then cpuCProp (evWave cfg loc) opsL levels sims S0
+             else gpuCProp (evWave cfg loc) opsL levels sims bx.toNat! by_.toNat! S0
+    let lanes := (List.range sims).map fun x =>
+      let st := R x
+      let waves := (List.range locA.size).filterMap fun i =>
+        if loc i < 0 || capA.getD i 0 ≤ 0 then none else
+          let w := readWave (rdCells st.c (loc i) (capA.getD i 0).toNat)
+          some s!"{i}={showCells w.ents}:{showT w.term}"
+      let acc := (List.range nAcc).map fun (a : Nat) => toString (st.ab (a : Int))
+      "/".intercalate waves ++ "#" ++ ",".intercalate acc
+    some (";".intercalate lanes)
+  | "wio-cprop", _ => some "bad-args"
   | "wio-stoc", _ => some "bad-args"
   | "wio-ppi", _ => some "bad-args"
   | "wio-cap", _ => some "bad-args"
